@@ -350,6 +350,8 @@ def gen_debug(rng, sym_ids, wild=False):
     order = list(types)
     if wild:
         rng.shuffle(order)          # may put a pointer before the struct it cycles through
+        if order and rng.random() < 0.15:
+            order.pop()             # a referenced but unregistered type: outside the domain (correspondence only)
     for t in order:
         di.add_type(t)
     if types:
@@ -436,8 +438,8 @@ C3_TEMPLATES = [
     "module m{n};\nfunction void e{n}() {{ var int i; i = 0; while (i < {k}) {{ i = i + 1; }} }}\n",
 ]
 ASM = {
-    "arm": "section code\nglobal a{n}\na{n}:\nmov r0, {k}\nb a{n}\nbl ext{n}\nsection data\nd{n}:\ndd {k}\ndd a{n}\n",
-    "x86_64": "section code\nglobal a{n}\na{n}:\nmov rax, {k}\njmp a{n}\ncall ext{n}\nsection data\nd{n}:\ndq a{n}\n",
+    "arm": "section code\nglobal a{n}\na{n}:\nmov r0, {k}\nb a{n}\nbl ext{n}\nldr r1, =d{n}\nsection data\nd{n}:\ndd {k}\ndcd =a{n}\n",
+    "x86_64": "section code\nglobal a{n}\na{n}:\nmov rax, {k}\njmp a{n}\ncall ext{n}\nmov rbx, d{n}\nsection data\nd{n}:\ndb {k}\n",
     "riscv": "section code\nglobal a{n}\na{n}:\naddi x1, x2, {k}\nj a{n}\njal x1, ext{n}\nsection data\nd{n}:\ndd {k}\n",
     "msp430": "section code\nglobal a{n}\na{n}:\nmov.w #{k}, r4\njmp a{n}\ncall #ext{n}\nsection data\nd{n}:\ndw {k}\n",
 }
@@ -450,11 +452,17 @@ def real_objects(ctx, arch):
     out = []
 
     def attempt(kind, f):
+        import contextlib
+        import logging
+        logging.disable(logging.CRITICAL)      # ppci logs/prints diagnostics of the templates; not C14's business
         try:
-            o = f()
+            with contextlib.redirect_stdout(io.StringIO()):
+                o = f()
         except Exception as e:  # a target that cannot compile a template is not C14's business
             ctx.count(f"skip_{kind}_{type(e).__name__}")
             return None
+        finally:
+            logging.disable(logging.NOTSET)
         out.append((f"{kind}:{arch}", o))
         return o
 
@@ -506,3 +514,438 @@ def all_arch_names():
         for opt in getattr(cls, "option_names", ()):
             names.append(f"{name}:{opt}")
     return names
+
+
+# --------------------------------------------------------------------------------------
+# real-code adapters
+# --------------------------------------------------------------------------------------
+def exc_name(e):
+    return type(e).__name__
+
+
+def exc_site(e):
+    tb = e.__traceback__
+    last = None
+    while tb is not None:
+        last = tb
+        tb = tb.tb_next
+    if last is None:
+        return "?"
+    code = last.tb_frame.f_code
+    return f"{code.co_filename.rsplit('/', 1)[-1]}:{code.co_name}"
+
+
+def save_text(o):
+    f = io.StringIO()
+    o.save(f)
+    return f.getvalue()
+
+
+def load_text(text):
+    from ppci.binutils.objectfile import ObjectFile
+    return ObjectFile.load(io.StringIO(text))
+
+
+def cycle_through_pointer(dbg_walk, key):
+    """Independent description of the open finding: the type whose saved id is `key` is a
+    pointer/array that lies on a reference cycle.  `key` is the KeyError argument; ids are
+    handed out in first-visit order, which is recomputed here from the walked table."""
+    types = dbg_walk["types"]
+
+    def refs(t):
+        if t["kind"] == "struct":
+            return [f["type"] for f in t["fields"]]
+        if t["kind"] == "array":
+            return [t["element_type"]]
+        if t["kind"] == "pointer":
+            return [t["pointed_type"]]
+        return []
+
+    ids = {}
+    for p, t in enumerate(types):
+        ids.setdefault(p, len(ids))
+        for r in refs(t):
+            ids.setdefault(r, len(ids))
+    pos = [p for p, i in ids.items() if i == key]
+    if not pos or pos[0] >= len(types) or types[pos[0]]["kind"] not in ("pointer", "array"):
+        return False
+    start = pos[0]
+    seen, todo = set(), list(refs(types[start]))
+    while todo:
+        x = todo.pop()
+        if x == start:
+            return True
+        if x in seen or x >= len(types):
+            continue
+        seen.add(x)
+        todo += refs(types[x])
+    return False
+
+
+def corpus_objects():
+    """Fixed inputs that always run first: boundaries, past disagreements, the open finding."""
+    from ppci.api import get_arch
+    from ppci.binutils.objectfile import ObjectFile, Image, RelocationEntry
+    from ppci.binutils import debuginfo as D
+    from ppci.common import SourceLocation
+    from ppci.arch.stack import StackLocation
+    out = []
+    o = ObjectFile(get_arch("arm"))
+    out.append(("corpus:empty", o))
+    # open finding: pointer registered before the struct it cycles through
+    o = ObjectFile(get_arch("arm"))
+    o.debug_info = D.DebugInfo()
+    S = D.DebugStructType()
+    P = D.DebugPointerType(S)
+    S.add_field("next", P, 0)
+    o.debug_info.add_type(P)
+    o.debug_info.add_type(S)
+    out.append(("corpus:ptr-first-cycle", o))
+    # same through an array
+    o = ObjectFile(get_arch("x86_64"))
+    o.debug_info = D.DebugInfo()
+    S = D.DebugStructType()
+    A = D.DebugArrayType(S, 3)
+    B = D.DebugBaseType("int", 4, 5)
+    S.add_field("v", B, 0)
+    S.add_field("arr", A, 4)
+    for t in (B, A, S):
+        o.debug_info.add_type(t)
+    out.append(("corpus:array-first-cycle", o))
+    # struct-first (as the compilers emit it) with the formerly lost fields
+    o = ObjectFile(get_arch("riscv"))
+    o.debug_info = D.DebugInfo()
+    S = D.DebugStructType()
+    P = D.DebugPointerType(S)
+    B = D.DebugBaseType("ünt", 4, 7)
+    S.add_field("next", P, 0)
+    S.add_field("v", B, 8)
+    for t in (S, P, B):
+        o.debug_info.add_type(t)
+    loc = SourceLocation("a.c", 3, 4, 5)
+    o.debug_info.add_variable(D.DebugVariable("x", B, loc, address=D.FpOffsetAddress(StackLocation(-12, 4))))
+    o.debug_info.add_function(D.DebugFunction("f", loc, B, [D.DebugParameter("a", P)], begin=D.DebugAddress(0), end=D.DebugAddress(1),
+                                              variables=[D.DebugVariable("y", S, loc, address=D.FpOffsetAddress(StackLocation(-40, 12)))]))
+    o.debug_info.add_location(D.DebugLocation(loc, address=D.DebugAddress(0)))
+    o.add_symbol(0, "f", "global", 0, None, "func", 0)
+    o.add_symbol(1, "f_end", "local", 64, None, "object", 0)
+    out.append(("corpus:struct-first-debug", o))
+    # data on both sides of the chunk rule, negative numbers, absolute/undefined symbols, entry 0, image
+    o = ObjectFile(get_arch("arm"))
+    for i, n in enumerate([0, 1, 29, 30, 31, 60, 61]):
+        s = o.create_section(f"s{n}")
+        s.address = -(1 << (4 * i)) if i % 2 else (1 << (9 * i))
+        s.alignment = 1 << i
+        s.add_data(bytes((7 * k + n) & 255 for k in range(n)))
+    o.add_symbol(0, "undef", "global", None, None, "object", 0)
+    o.add_symbol(1, "abs", "global", -1, None, "object", 4)
+    o.add_symbol(2, 'lo"cal', "local", 0, "s30", "func", 0)
+    o.add_symbol(5, 'lo"cal', "local", 3, "s31", None, None)
+    o.add_relocation(RelocationEntry("abs32", 0, "s31", 0, -4))
+    o.add_relocation(RelocationEntry("b_imm24", 77, "s0", 1 << 40, -(1 << 70)))
+    img = Image("flash ü", -0x100)
+    img.add_section(o.get_section("s61"))
+    img.add_section(o.get_section("s0"))
+    o.add_image(img)
+    o.add_image(Image("empty", 0))
+    o.entry_symbol_id = 0
+    out.append(("corpus:edges", o))
+    return out
+
+
+MALFORMED = [
+    ("drop-arch", lambda d, r: d.pop("arch")),
+    ("drop-sections", lambda d, r: d.pop("sections")),
+    ("drop-symbols", lambda d, r: d.pop("symbols")),
+    ("drop-images", lambda d, r: d.pop("images")),
+    ("sec-drop-data", lambda d, r: d["sections"][0].pop("data")),
+    ("sec-odd-data", lambda d, r: d["sections"][0].__setitem__("data", "abc")),
+    ("sec-bad-data", lambda d, r: d["sections"][0].__setitem__("data", ["00", "zz"])),
+    ("sec-upper-data", lambda d, r: d["sections"][0].__setitem__("data", "AbCDef")),
+    ("sec-nonascii-data", lambda d, r: d["sections"][0].__setitem__("data", "é0")),
+    ("sec-data-part-int", lambda d, r: d["sections"][0].__setitem__("data", ["00", 5])),
+    ("sec-data-dict", lambda d, r: d["sections"][0].__setitem__("data", {"a": 1})),
+    ("sec-addr-bad", lambda d, r: d["sections"][0].__setitem__("address", "0xzz")),
+    ("sec-addr-empty", lambda d, r: d["sections"][0].__setitem__("address", "0x")),
+    ("sec-addr-int", lambda d, r: d["sections"][0].__setitem__("address", 16)),
+    ("sec-addr-dollar", lambda d, r: d["sections"][0].__setitem__("address", "$1F")),
+    ("sec-addr-bin", lambda d, r: d["sections"][0].__setitem__("address", "0b1011")),
+    ("sec-addr-pct", lambda d, r: d["sections"][0].__setitem__("address", "%110")),
+    ("sec-addr-dec", lambda d, r: d["sections"][0].__setitem__("address", "-42")),
+    ("sec-align-bad", lambda d, r: d["sections"][0].__setitem__("alignment", "four")),
+    ("sec-dup-name", lambda d, r: d["sections"].append(dict(d["sections"][0], address="0x99"))),
+    ("rel-unknown-section", lambda d, r: d["relocations"][0].__setitem__("section", "nope")),
+    ("rel-drop-addend", lambda d, r: d["relocations"][0].pop("addend")),
+    ("rel-bool-symid", lambda d, r: d["relocations"][0].__setitem__("symbol_id", True)),
+    ("rel-null-symid", lambda d, r: d["relocations"][0].__setitem__("symbol_id", None)),
+    ("sym-dup-id", lambda d, r: d["symbols"].append(dict(d["symbols"][0], name="other", binding="local"))),
+    ("sym-dup-global", lambda d, r: d["symbols"].append(dict(d["symbols"][0], id=9999, binding="global")) or d["symbols"][0].__setitem__("binding", "global")),
+    ("sym-dup-local", lambda d, r: d["symbols"].append(dict(d["symbols"][0], id=9999, binding="local"))),
+    ("sym-drop-typ", lambda d, r: d["symbols"][0].pop("typ")),
+    ("sym-value-no-section", lambda d, r: (d["symbols"][0].__setitem__("value", "0x4"), d["symbols"][0].pop("section", None))),
+    ("img-unknown-section", lambda d, r: d["images"][0]["sections"].append("nope")),
+    ("img-addr-bad", lambda d, r: d["images"][0].__setitem__("address", "")),
+    ("entry-null", lambda d, r: d.__setitem__("entry_symbol_id", None)),
+    ("dbg-drop-types", lambda d, r: d["debug"].pop("types")),
+    ("dbg-type-kind", lambda d, r: d["debug"]["types"][0].__setitem__("kind", "union")),
+    ("dbg-dangling-var", lambda d, r: d["debug"]["variables"][0].__setitem__("type", 4242)),
+    ("dbg-addr-kind", lambda d, r: d["debug"]["locations"][0]["address"].__setitem__("kind", "reg")),
+    ("dbg-fixed-str", lambda d, r: d["debug"]["locations"][0].__setitem__("address", {"kind": "fixed", "symbol_id": "7"})),
+    ("dbg-fprel-nosize", lambda d, r: d["debug"]["locations"][0].__setitem__("address", {"kind": "fprel", "offset": -8})),
+    ("dbg-base-noenc", lambda d, r: [t.pop("encoding", None) for t in d["debug"]["types"]]),
+    ("dbg-loc-drop-row", lambda d, r: d["debug"]["locations"][0]["source"].pop("row")),
+    ("dbg-func-drop-name", lambda d, r: d["debug"]["functions"][0].pop("function_name")),
+    ("dbg-array-size-str", lambda d, r: [t.__setitem__("size", "3") for t in d["debug"]["types"] if t["kind"] == "array"][0]),
+    ("dbg-drop-type-entry", lambda d, r: d["debug"]["types"].pop(r.randrange(len(d["debug"]["types"])))),
+    ("dbg-reverse-types", lambda d, r: d["debug"]["types"].reverse()),
+]
+
+
+def real_deserialize(tree):
+    from ppci.binutils.objectfile import deserialize
+    try:
+        return ("ok", walk_obj(deserialize(tree)))
+    except Exception as e:  # noqa
+        return ("err", exc_name(e))
+
+
+def reply_of(kind, val):
+    return ("ok " + encode(val)) if kind == "ok" else ("err " + val)
+
+
+# --------------------------------------------------------------------------------------
+# the check
+# --------------------------------------------------------------------------------------
+def check(ctx):
+    from ppci.common import make_num
+    from ppci.utils.binary_txt import bin2asc, asc2bin
+    from ppci.api import get_arch, link
+    from ppci.binutils.archive import Archive
+    from ppci.binutils.objectfile import serialize as real_serialize
+    import copy
+    rng = ctx.rng
+    reqs, impl, what = [], [], []
+
+    def ask(op, tree, impl_reply, kind):
+        reqs.append(op + " " + encode(tree))
+        impl.append(impl_reply)
+        what.append(kind)
+
+    # ---- 0. assumption: arch id strings are stable under get_arch ------------------------
+    for name in all_arch_names():
+        ctx.count("eval_arch_id")
+        try:
+            a = get_arch(name)
+            b = get_arch(a.make_id_str())
+            if type(a) is not type(b) or a.make_id_str() != b.make_id_str():
+                ctx.fail("arch:id-string-not-stable", f"get_arch({a.make_id_str()!r}) gives {b.make_id_str()!r}", name)
+        except Exception as e:  # noqa
+            ctx.fail("arch:get_arch-raises", f"get_arch({name!r}) raised {exc_name(e)}", name)
+
+    # ---- 1. numbers ------------------------------------------------------------------------
+    ints = list(range(-300, 301)) if not ctx.thorough else list(range(-70000, 70001))
+    for k in range(1, 40):
+        for d in (-1, 0, 1):
+            ints += [(1 << (4 * k)) + d, -(1 << (4 * k)) + d]
+    ints += [rnd_int(rng) for _ in range(3000 if ctx.thorough else 300)]
+    for n in ints:
+        s = hex(n)
+        ask("hex", n, "ok " + encode(s), "hex")
+        try:
+            back = make_num(s)
+        except Exception as e:  # noqa
+            back = exc_name(e)
+        ctx.count("eval_make_num_hex")
+        if back != n:
+            ctx.fail("make_num:hex-roundtrip", f"make_num(hex({n})) = {back}", n)
+        if n < 0 or n > 255:
+            ctx.nontrivial(("hex", n))
+    strs = ["$1F", "$", "0b101", "0b", "0b12", "%11", "%", "12", "-12", "+7", "", "0x", "-0x", "0xZZ", "0xg", "abc", "-", "1a", "0X1F",
+            "0xAbCdEf", "-0x0", "0x00000", "0b0", "$ff", "99999999999999999999999", "-0b1", "0x1G", "x", "0", "00", "007"]
+    digs = "0123456789abcdefABCDEFgz"
+    for _ in range(600 if ctx.thorough else 120):
+        strs.append(rng.choice(["0x", "-0x", "$", "0b", "%", "", "-", "+"]) + "".join(rng.choice(digs) for _ in range(rng.randint(0, 6))))
+    for s in strs + [5, None, ["0x1"]]:
+        try:
+            r = ("ok", make_num(s))
+        except Exception as e:  # noqa
+            r = ("err", exc_name(e))
+        ask("mknum", s, reply_of(*r), "mknum")
+        ctx.nontrivial(("mknum", str(s)))
+
+    # ---- 2. byte strings -------------------------------------------------------------------
+    blobs = [bytes(rng.getrandbits(8) for _ in range(n)) for n in range(0, 96 if ctx.thorough else 64)]
+    blobs += [bytes([0] * 30), bytes([255] * 31), bytes(range(256)), rng.randbytes(3001)]
+    blobs += [rnd_data(rng, big=False) for _ in range(400 if ctx.thorough else 40)]
+    for b in blobs:
+        a = bin2asc(b)
+        ask("b2a", b.hex(), "ok " + encode(a), "b2a")
+        try:
+            back = asc2bin(a)
+        except Exception as e:  # noqa
+            back = exc_name(e)
+        ctx.count("eval_asc2bin_bin2asc")
+        if back != b:
+            ctx.fail("asc2bin:bin2asc-roundtrip", f"asc2bin(bin2asc(<{len(b)} bytes>)) differs: {back!r:.80}", b.hex())
+        ask("a2b", a, "ok " + encode(b.hex()), "a2b")
+        if len(b) > 30:
+            ctx.nontrivial(("chunked", len(b)))
+    for a in ["abc", "0g", "AbCD", "é0", "", ["00", "ff", "A1"], ["0"], ["00", 5], [], {"a": 1}, 5, None, ["é"], ["zz"]]:
+        try:
+            r = ("ok", asc2bin(a).hex())
+        except Exception as e:  # noqa
+            r = ("err", exc_name(e))
+        ask("a2b", a, reply_of(*r), "a2b-malformed")
+        ctx.nontrivial(("a2b", json.dumps(a)))
+
+    # ---- 3. objects ------------------------------------------------------------------------
+    objs = corpus_objects()
+    groups = []
+    targets = TARGETS_THOROUGH if ctx.thorough else TARGETS_QUICK
+    for arch in targets:
+        ro, gr = real_objects(ctx, arch)
+        objs += ro
+        groups += [(arch, g) for g in gr]
+    ngen = 600 if ctx.thorough else 60
+    for i in range(ngen):
+        arch = rng.choice(["arm", "x86_64", "riscv", "msp430", "arm:thumb", "riscv:rvc"])
+        wild = i % 4 == 0
+        objs.append(("gen-wild" if wild else "gen", gen_object(rng, arch, big=(i % 20 == 0), wild_debug=wild)))
+
+    obj_meta = []   # (tag, walk, load outcome, walk2)
+    for tag, o in objs:
+        kind = tag.split(":")[0]
+        ctx.count("objects_" + kind)
+        w = walk_obj(o)
+        tree = o.serialize()
+        ask("ser", w, "ok " + encode(tree), "ser")
+        text = save_text(o)
+        jt = json.loads(text)
+        if jt != tree:
+            ctx.fail("json:text-tree-mismatch", "json.loads(save text) differs from serialize() tree", tag)
+        try:
+            o2 = load_text(text)
+            outcome = ("ok", walk_obj(o2))
+        except Exception as e:  # noqa
+            outcome = ("err", exc_name(e), exc_site(e), e.args[0] if e.args else None)
+        ask("deser", jt, reply_of(outcome[0], outcome[1]), "deser")
+        ask("wf", w, None, "wf")
+        ask("loadable", w, None, "loadable")
+        obj_meta.append((tag, w, outcome, len(reqs) - 2, o))
+        if w["symbols"] or w["relocations"] or w["debug"] is not None or any(len(s["data"]) > 60 for s in w["sections"]):
+            ctx.nontrivial(("obj", zlib.crc32(text.encode())))
+        if len(ctx.samples) < 3 and w["debug"] is not None and w["relocations"]:
+            ctx.sample({"tag": tag, "sections": len(w["sections"]), "symbols": len(w["symbols"]), "relocations": len(w["relocations"]),
+                        "debug_types": len(w["debug"]["types"]), "saved_bytes": len(text)})
+
+    # archives: real groups and random groups of generated objects
+    ar_groups = [g for _, g in groups]
+    pool = [o for t, o in objs if t.split(":")[0] == "gen"]
+    for _ in range(40 if ctx.thorough else 6):
+        if pool:
+            ar_groups.append(rng.sample(pool, rng.randint(0, min(4, len(pool)))))
+    ar_meta = []
+    for g in ar_groups:
+        f = io.StringIO()
+        Archive(g).save(f)
+        text = f.getvalue()
+        jt = json.loads(text)
+        ws = [walk_obj(o) for o in g]
+        ask("arsave", ws, "ok " + encode(jt), "arsave")
+        try:
+            a2 = Archive.load(io.StringIO(text))
+            outcome = ("ok", [walk_obj(o) for o in a2.objs])
+        except Exception as e:  # noqa
+            outcome = ("err", exc_name(e))
+        ask("arload", jt, reply_of(*outcome), "arload")
+        ar_meta.append((ws, outcome))
+
+    # malformed trees for the loader
+    donors = [o for t, o in objs if t.startswith("corpus:struct-first") or t.startswith("corpus:edges")]
+    donors += [o for t, o in objs if t.split(":")[0] in ("c3c-dbg", "link-partial-dbg", "gen")][: (60 if ctx.thorough else 12)]
+    for o in donors:
+        base = o.serialize()
+        for name, mut in MALFORMED:
+            d = copy.deepcopy(base)
+            try:
+                mut(d, rng)
+            except (KeyError, IndexError, ValueError):
+                continue
+            r = real_deserialize(d)
+            ask("deser", d, reply_of(*r), "deser-malformed")
+            ctx.count("malformed_" + ("ok" if r[0] == "ok" else r[1]))
+            ctx.nontrivial(("malformed", name, r[1] if r[0] == "err" else "ok"))
+
+    # ---- model side --------------------------------------------------------------------------
+    model = ctx.driver("C14", reqs)
+    for rq, i, m, k in zip(reqs, impl, model, what):
+        ctx.count("eval_" + k)
+        if m.startswith("bad-op") or m == "err Unsupported" or m == "err FuelExhausted":
+            ctx.disagree(k + ":model-outside-fragment", rq[:400], i, m)
+        elif i is not None and i != m:
+            ctx.disagree(k, rq[:400], i[:400], m[:400])
+    ctx.sample({"request": reqs[0], "impl": impl[0], "model": model[0]})
+
+    # ---- the property on the real code ---------------------------------------------------
+    for tag, w, outcome, qi, o in obj_meta:
+        ctx.count("eval_roundtrip")
+        wf = model[qi] == "ok t"
+        loadable = model[qi + 1] == "ok t"
+        ctx.count("domain_wf" if wf else "domain_not_wf")
+        if not wf:
+            if tag.split(":")[0] not in ("gen-wild",):
+                ctx.disagree("wf:real-object-outside-domain", tag, "constructed through the public API", model[qi])
+            continue
+        if outcome[0] == "err":
+            _, name, site, arg = outcome
+            if name == "KeyError" and site == "debuginfo.py:get_type" and w["debug"] is not None and cycle_through_pointer(w["debug"], arg):
+                ctx.fail("load:debug-type-cycle-through-pointer", f"{tag}: ObjectFile.load raises KeyError({arg}) in get_type", tag,
+                         types=w["debug"]["types"])
+                if loadable:
+                    ctx.disagree("loadable", tag, "KeyError", "loadable = true")
+            else:
+                ctx.fail(f"load:{name}@{site}", f"{tag}: ObjectFile.load of the saved object raised {name}", tag, walk=w)
+            continue
+        if not loadable:
+            ctx.disagree("loadable", tag, "load ok", "loadable = false")
+        for p in sorted(set(diff_paths(w, outcome[1]))):
+            ctx.fail("roundtrip:" + p, f"{tag}: field {p} differs after save+load", tag, walk=w if len(json.dumps(w)) < 4000 else "(large)")
+    for ws, outcome in ar_meta:
+        ctx.count("eval_archive")
+        if outcome[0] == "err":      # members are real outputs / non-wild generated objects: each loads on its own
+            ctx.fail(f"archive:load:{outcome[1]}", f"Archive.load raised {outcome[1]}", [w["arch"] for w in ws])
+            continue
+        for p in sorted(set(diff_paths(ws, outcome[1]))):
+            ctx.fail("archive:roundtrip:" + p, f"archive member field {p} differs after save+load", len(ws))
+
+    # ---- linking the reloaded objects gives byte-identical output (real linker) ---------
+    layout = "MEMORY flash LOCATION=0x1000 SIZE=0x40000 { SECTION(code) ALIGN(8) SECTION(data) }\nMEMORY ram LOCATION=0x20000000 SIZE=0x8000 { SECTION(bss) }"
+    for arch, g in groups:
+        for dbg in (False, True):
+            for mode in ("partial", "image"):
+                kw = dict(partial_link=True) if mode == "partial" else dict(layout=io.StringIO(layout), extra_symbols={s.name: 0x1234 for o in g for s in o.symbols if s.undefined and s.name not in {t.name for q in g for t in q.symbols if t.defined}})
+                try:
+                    a = link(list(g), debug=dbg, **kw)
+                except Exception as e:  # noqa  (e.g. relocation out of range with the fake externals)
+                    ctx.count("link_skip_" + exc_name(e))
+                    continue
+                if mode == "image":
+                    kw["layout"] = io.StringIO(layout)
+                ctx.count("eval_link_reloaded")
+                try:
+                    g2 = [load_text(save_text(o)) for o in g]
+                    b = link(g2, debug=dbg, **kw)
+                except Exception as e:  # noqa
+                    ctx.fail(f"link:reloaded-raises:{exc_name(e)}", f"linking the reloaded objects ({arch}, {mode}, debug={dbg}) raised {exc_name(e)}", arch)
+                    continue
+                if save_text(a) != save_text(b) or [bytes(i.data) for i in a.images] != [bytes(i.data) for i in b.images]:
+                    d = sorted(set(diff_paths(walk_obj(a), walk_obj(b))))
+                    ctx.fail("link:reloaded-differs:" + (d[0] if d else "text"), f"link of reloaded objects differs ({arch}, {mode}, debug={dbg}) at {d[:4]}", arch)
+                ctx.nontrivial(("link", arch, mode, dbg))
+    ctx.extra_cov["exhaustive"] = False
+    ctx.extra_cov["targets"] = targets
+    ctx.extra_cov["objects"] = len(objs)
+
+
+def replay(ctx, rp):
+    check(ctx)
